@@ -562,7 +562,7 @@ impl PoolGen {
         denoms.truncate(n);
         let ty = if stable {
             PoolType::StableSwap {
-                amp: *[1u64, 10, 85, 100, 2000, 1_000_000].choose(&mut self.rng).unwrap(),
+                amp: *[1u64, 10, 85, 100, 2000, 1_000_000, 5_000_000, 1_000_000_000_000, u64::MAX].choose(&mut self.rng).unwrap(),
             }
         } else {
             PoolType::ConstantProduct
